@@ -215,6 +215,67 @@ fn exec<P: Px>(c: &RCase, stats: &mut Stats, viols: &mut Vec<Viol>) {
                 }
             }
         }
+        // frames decoded into one buffer: a long-lived Resizer resizes the buffer, the buffer is overwritten in place with another
+        // frame (same address, size and type; the alpha plane inverted, so transparency moves), and is resized again - relations
+        // (ii) and (vii) are judged on the second frame (whatever the Resizer keeps between calls may not stand in for the new pixels)
+        {
+            let amax = if P::kind() == CompKind::F32 { 1.0 } else { P::kind().range().1 };
+            let mut buf = src.clone();
+            let mut r = resizer(ext);
+            let first = resize_with::<P>(&mut r, &buf, c.sw, c.sh, c.dw, c.dh, &opts_on);
+            {
+                let comps = P::components_mut(&mut buf);
+                for i in 0..src.len() {
+                    let a = comps[i * nc + nc - 1].to_f64();
+                    comps[i * nc + nc - 1] = P::C::from_f64((amax - a).clamp(0.0, amax));
+                    for ch in 0..nc - 1 {
+                        // finite colours, other than before
+                        comps[i * nc + ch] = match P::kind() {
+                            CompKind::F32 => P::C::from_f64(0.75 - 0.5 * comps[i * nc + ch].to_f64().clamp(-4.0, 4.0)),
+                            _ => P::C::from_bits(!comps[i * nc + ch].bits()),
+                        };
+                    }
+                }
+            }
+            let second = resize_with::<P>(&mut r, &buf, c.sw, c.sh, c.dw, c.dh, &opts_on);
+            if let (Ok(_), Ok(sec)) = (first, second) {
+                stats.count("second_frames_in_the_same_buffer", 1);
+                let sc = P::components(&sec);
+                let plane: Vec<f64> = {
+                    let bc = P::components(&buf);
+                    (0..buf.len()).map(|i| bc[i * nc + nc - 1].to_f64()).collect()
+                };
+                let got: Option<Vec<f64>> = match P::kind() {
+                    CompKind::U8 => {
+                        let pl: Vec<fr::pixels::U8> = plane.iter().map(|&v| fr::pixels::U8::new(v as u8)).collect();
+                        resize_vec::<fr::pixels::U8>(&pl, c.sw, c.sh, c.dw, c.dh, &opts_off, ext).ok().map(|v| v.iter().map(|p| p.0 as f64).collect())
+                    }
+                    CompKind::U16 => {
+                        let pl: Vec<fr::pixels::U16> = plane.iter().map(|&v| fr::pixels::U16::new(v as u16)).collect();
+                        resize_vec::<fr::pixels::U16>(&pl, c.sw, c.sh, c.dw, c.dh, &opts_off, ext).ok().map(|v| v.iter().map(|p| p.0 as f64).collect())
+                    }
+                    CompKind::F32 => {
+                        let pl: Vec<fr::pixels::F32> = plane.iter().map(|&v| fr::pixels::F32::new(v as f32)).collect();
+                        resize_vec::<fr::pixels::F32>(&pl, c.sw, c.sh, c.dw, c.dh, &opts_off, ext).ok().map(|v| v.iter().map(|p| p.0 as f64).collect())
+                    }
+                    _ => None,
+                };
+                if let Some(got) = got {
+                    let tol = if P::kind() == CompKind::F32 { 8.0 * ulp32_up(4.0) } else { 0.0 };
+                    if let Some(i) = (0..n).find(|&i| !((sc[i * nc + nc - 1].to_f64() - got[i]).abs() <= tol)) {
+                        viols.push(
+                            Viol::new("alpha_channel_differs_from_plain_resampling", format!("{}: second frame in the same buffer: pixel {}: alpha of the result {:?}, the alpha plane of that frame resized alone gives {}", ext.name(), i, sc[i * nc + nc - 1], got[i])).sig(sig("vii-frame2", ext)),
+                        );
+                    }
+                }
+                for i in 0..n {
+                    if is_zero(sc[i * nc + nc - 1]) && (0..nc - 1).any(|ch| !is_zero(sc[i * nc + ch])) {
+                        viols.push(Viol::new("colour_under_zero_alpha_in_result", format!("{}: second frame in the same buffer: pixel {} = {:?}", ext.name(), i, sec[i])).sig(sig("ii-frame2", ext)));
+                        break;
+                    }
+                }
+            }
+        }
         // (iii) opaque source: same as alpha handling disabled
         if opaque {
             for i in 0..n * nc {
